@@ -124,7 +124,7 @@ def dfxp_strategy(tier):
                 lines.append({"runs": runs, "seps": seps})
             cues.append({"lines": lines, "br": draw(st.sampled_from(["<br/>", "<br />", "<br></br>", "<br/>\n        "])),
                          "pretty": draw(st.booleans())})
-        return {"fmt": "dfxp", "cues": cues}
+        return {"fmt": "dfxp", "reuse": draw(st.integers(0, 3)) == 0, "cues": cues}
     return build()
 
 
@@ -149,6 +149,28 @@ def _nontrivial(case):
     return False
 
 
+PREV = {
+    "dfxp": ('<tt xmlns="http://www.w3.org/ns/ttml" xml:lang="en"><body><div xml:lang="en">'
+             '<p begin="9s" end="10s">earlier <span tts:fontStyle="italic">document</span><br/>x</p></div></body></tt>'),
+    "sami": ('<SAMI><HEAD><STYLE TYPE="text/css"><!-- .ENCC {lang: en-US;} --></STYLE></HEAD><BODY>'
+             '<SYNC Start=9000><P Class=ENCC>earlier <i>document</i><br>x</SYNC></BODY></SAMI>'),
+    "webvtt": "WEBVTT\n\n00:09.000 --> 00:10.000\n<v Bob>earlier <i>document</i>\n",
+    "srt": "1\n00:00:09,000 --> 00:00:10,000\nearlier document\n",
+    "microdvd": "{225}{250}earlier|document\n",
+}
+
+
+def _reader(cls, fmt, case, rec):
+    r = cls()
+    if case.get("reuse"):
+        try:
+            r.read(PREV[fmt])
+        except Exception:  # noqa
+            pass
+        rec.label("reused-reader")
+    return r
+
+
 def _compare(caps, exp, fmt, doc):
     require(len(caps) == len(exp), lambda: f"{fmt}: {len(caps)} captions for {len(exp)} cues: {doc[:500]!r}")
     for i, (c, e) in enumerate(zip(caps, exp)):
@@ -168,7 +190,7 @@ def check_dfxp(case, rec):
     if _skip_known(case, rec, "dfxp"):
         return
     with must("DFXPReader.read"):
-        cs = DFXPReader().read(doc)
+        cs = _reader(DFXPReader, "dfxp", case, rec).read(doc)
     _compare(cs.get_captions("en"), _expected(case["cues"]), "dfxp", doc)
     _labels(case, rec)
 
@@ -245,7 +267,7 @@ def sami_strategy(tier):
                 seps = [draw(st.sampled_from(["", " ", " "])) for _ in runs]
                 lines.append({"runs": runs, "seps": seps})
             cues.append({"lines": lines, "br": draw(st.sampled_from(["<br>", "<br/>", "<BR>", "<br />", "<br/>\n    "]))})
-        return {"fmt": "sami", "cues": cues, "upper": draw(st.booleans()),
+        return {"fmt": "sami", "reuse": draw(st.integers(0, 3)) == 0, "cues": cues, "upper": draw(st.booleans()),
                 "close_p": draw(st.booleans())}
     return build()
 
@@ -262,7 +284,7 @@ def check_sami(case, rec):
     if _skip_known(case, rec, "sami"):
         return
     with must("SAMIReader.read"):
-        cs = SAMIReader().read(doc)
+        cs = _reader(SAMIReader, "sami", case, rec).read(doc)
     _compare(cs.get_captions("en-US"), _expected(case["cues"]), "sami", doc)
     _labels(case, rec)
 
@@ -320,7 +342,7 @@ def webvtt_strategy(tier):
                 seps = [draw(st.sampled_from(["", " ", " "])) for _ in runs]
                 lines.append({"runs": runs, "seps": seps})
             cues.append({"lines": lines})
-        return {"fmt": "webvtt", "cues": cues}
+        return {"fmt": "webvtt", "reuse": draw(st.integers(0, 3)) == 0, "cues": cues}
     return build()
 
 
@@ -335,7 +357,7 @@ def check_webvtt(case, rec):
     if _skip_known(case, rec, "webvtt"):
         return
     with must("WebVTTReader.read"):
-        cs = WebVTTReader().read(doc)
+        cs = _reader(WebVTTReader, "webvtt", case, rec).read(doc)
     _compare(cs.get_captions("en-US"), _expected(case["cues"]), "webvtt", doc)
     _labels(case, rec)
 
@@ -353,7 +375,7 @@ def plain_strategy(tier):
                 t = draw(_authored(pipe=(fmt != "microdvd")))
                 lines.append({"runs": [{"text": t, "enc": t}], "seps": [""]})
             cues.append({"lines": lines})
-        return {"fmt": fmt, "cues": cues, "eol": draw(st.sampled_from(["\n", "\n", "\r\n"]))}
+        return {"fmt": fmt, "reuse": draw(st.integers(0, 3)) == 0, "cues": cues, "eol": draw(st.sampled_from(["\n", "\n", "\r\n"]))}
     return build()
 
 
@@ -363,13 +385,13 @@ def check_plain(case, rec):
                 for i, c in enumerate(case["cues"])]
         doc = S.srt_doc(cues, case["eol"])
         with must("SRTReader.read"):
-            cs = SRTReader().read(doc)
+            cs = _reader(SRTReader, "srt", case, rec).read(doc)
     else:
         cues = [(25 * i + 1, 25 * i + 20, "|".join(_line_enc(l) for l in c["lines"]))
                 for i, c in enumerate(case["cues"])]
         doc = S.microdvd_doc(cues, None, case["eol"])
         with must("MicroDVDReader.read"):
-            cs = MicroDVDReader().read(doc)
+            cs = _reader(MicroDVDReader, "microdvd", case, rec).read(doc)
     _compare(cs.get_captions(cs.get_languages()[0]), _expected(case["cues"]), case["fmt"], doc)
     rec.nontrivial(any(gen.has_meta(_line_text(l)) for c in case["cues"] for l in c["lines"]))
     rec.label(case["fmt"])
